@@ -2,7 +2,7 @@ from collections import defaultdict
 from typing import Any, Dict, List, Tuple
 
 from synth.filter.filter import Filter
-from synth.semantic.evaluator import Evaluator
+from synth.semantic.evaluator import Evaluator, __tuplify__
 from synth.syntax.program import Program
 from synth.syntax.type_system import Type
 
@@ -23,7 +23,7 @@ class ObsEqFilter(Filter):
             if out is None:
                 return False
             elif isinstance(out, List):
-                out = tuple(out)
+                out = __tuplify__(out)
             outputs = (outputs, out)
         original = self._cache[prog.type].get(outputs)  # type: ignore
         if original is not None and hash(original) != hash(prog):
